@@ -213,6 +213,9 @@ fn eval_internal(mem: &mut Memory, mut expression: GcRef, mut env: GcRef, mut en
 
     // loop is only used to jump back to the beginning of the function (using `continue`); never runs until the end more than once
     loop { 
+        #[cfg(picilisp_verif)]
+        crate::memory::verif::loop_head();
+
         if let Some(umb) = &mem.umbilical {
             if let Ok(msg) = umb.from_high_end.try_recv() {
                 match msg.get("command").map(|s| s.as_str()) {
